@@ -1,5 +1,212 @@
 package main
 
-import "verifharness/lib"
+// Real-chain histories: signed TransferAsset transactions with deliberate
+// double spends on the shared regnet fixture; blocks are built, solved and
+// connected through BlockChain.ProcessBlock, and the node's own post-block
+// cleanup (CleanSubmittedTransactions on ETBlockConnected, then
+// CheckAndCleanAllTransactions on ETBlockProcessed) runs through the
+// fixture's event handler.
 
-func runReal(rng *lib.Rng, tbl *slotTable, st *lib.Stats, sh *lib.Shards, run *lib.Run, id *int) {}
+import (
+	"fmt"
+	"sort"
+	"strings"
+
+	"github.com/elastos/Elastos.ELA/common"
+	common2 "github.com/elastos/Elastos.ELA/core/types/common"
+	"github.com/elastos/Elastos.ELA/core/types/interfaces"
+
+	"verifharness/fixture"
+	"verifharness/lib"
+)
+
+func runReal(rng *lib.Rng, tbl *slotTable, st *lib.Stats, sh *lib.Shards, run *lib.Run, id *int) {
+	for k := 0; k < run.N(3, 40); k++ {
+		*id++
+		realHistory(rng.Fork(), tbl, st, sh, run, *id)
+	}
+}
+
+func realHistory(rng *lib.Rng, tbl *slotTable, st *lib.Stats, sh *lib.Shards, run *lib.Run, id int) {
+	f, err := fixture.New(fixture.Options{})
+	if err != nil {
+		panic(fmt.Sprintf("fixture: %v", err))
+	}
+	defer f.Close()
+	const ela = 100000000
+	// block 1: split the genesis output into 14 coins
+	var outs []fixture.Out
+	nCoins := 14
+	for i := 0; i < nCoins; i++ {
+		outs = append(outs, fixture.Out{Key: i % 4, Value: common.Fixed64(1000 * ela)})
+	}
+	totalGen := f.Genesis.Transactions[0].Outputs()[0].Value
+	outs = append(outs, fixture.Out{Key: 0, Value: totalGen - common.Fixed64(nCoins*1000*ela) - 1000})
+	fund, err := f.Transfer([]fixture.In{{Op: f.GenesisOut, Key: 0}}, outs, 1)
+	if err != nil {
+		panic(err)
+	}
+	b0, err := f.BuildBlock(f.Genesis, nil, fixture.BlockOpt{})
+	if err != nil {
+		panic(fmt.Sprintf("fixture: build empty block: %v", err))
+	}
+	if _, _, err := f.ProcessBlock(b0); err != nil {
+		panic(fmt.Sprintf("fixture: process empty block: %v", err))
+	}
+	b1, err := f.BuildBlock(b0, []interfaces.Transaction{fund}, fixture.BlockOpt{})
+	if err != nil {
+		panic(fmt.Sprintf("fixture: build block 1: %v", err))
+	}
+	if _, _, err := f.ProcessBlock(b1); err != nil {
+		panic(fmt.Sprintf("fixture: process block 1: %v", err))
+	}
+	tip := b1
+	// the universe: transfers spending 1-2 of the 14 coins
+	u := &universe{rng: rng, h: &history{rejected: map[int]bool{}, limit: 1 << 40}, byH: map[common.Uint256]int{}, dict: map[string]int{}}
+	n := 10 + rng.Intn(10)
+	for len(u.txs) < n {
+		nin := 1 + rng.Intn(2)
+		var ins []fixture.In
+		seen := map[int]bool{}
+		for len(ins) < nin {
+			c := rng.Intn(nCoins)
+			if seen[c] {
+				continue
+			}
+			seen[c] = true
+			ins = append(ins, fixture.In{Op: common2.OutPoint{TxID: fund.Hash(), Index: uint16(c)}, Key: c % 4})
+		}
+		fee := int64([]int{100, 1000, 5000, 20000, 50}[rng.Intn(5)])
+		nout := 1 + rng.Intn(3)
+		var os []fixture.Out
+		rest := int64(nin)*1000*ela - fee
+		for j := 0; j < nout; j++ {
+			v := rest
+			if j < nout-1 {
+				v = rest / 2
+			}
+			rest -= v
+			os = append(os, fixture.Out{Key: rng.Intn(4), Value: common.Fixed64(v)})
+		}
+		tx, err := f.Transfer(ins, os, uint64(100+len(u.txs)))
+		if err != nil {
+			panic(err)
+		}
+		if _, dup := u.byH[tx.Hash()]; dup {
+			continue
+		}
+		g := &gtx{id: len(u.txs) + 1, ty: common2.TransferAsset, fee: fee, size: tx.GetSize(), refok: true, what: "TransferAsset(real)"}
+		for _, in := range tx.Inputs() {
+			g.ins = append(g.ins, in.ReferKey())
+		}
+		for i := range tx.Outputs() {
+			g.outs = append(g.outs, (&common2.OutPoint{TxID: tx.Hash(), Index: uint16(i)}).ReferKey())
+		}
+		g.tx = &vtx{Transaction: tx, id: g.id, h: u.h}
+		u.byH[tx.Hash()] = g.id
+		u.txs = append(u.txs, g)
+	}
+	pool := f.Pool
+	maxsz := []uint64{20000000, 1200, 700}[rng.Intn(3)]
+	pool.SetMaxSizeVerif(maxsz)
+	o := &oracleCtx{st: st, tbl: tbl, hist: id, kind: "real"}
+	spent := map[string]bool{}
+	chainRejects := func(g *gtx) bool {
+		if g.fee < 100 {
+			return true
+		}
+		for _, in := range g.ins {
+			if spent[in] {
+				return true
+			}
+		}
+		return false
+	}
+	inPool := func() []int {
+		var ids []int
+		for _, t := range pool.GetTxsInPool() {
+			ids = append(ids, u.idOf(t.Hash()))
+		}
+		sort.Ints(ids)
+		return ids
+	}
+	var steps []string
+	var jsteps []interface{}
+	emit := func(op, kind string, res int, nontrivial bool) {
+		s := pool.SnapshotVerif()
+		o.log = append(o.log, op)
+		o.check(u, pool, s, true)
+		steps = append(steps, fmt.Sprintf("(%s, %s)", op, u.coqObs(res, s, tbl)))
+		jsteps = append(jsteps, map[string]interface{}{"op": op, "res": res, "pool": len(s.Txs), "total": s.TotalSize})
+		st.Count("real|"+snapKey(kind, res, s, u), nontrivial || len(s.Txs) > 0, kind)
+	}
+	nops := 20 + rng.Intn(20)
+	for i := 0; i < nops; i++ {
+		held := inPool()
+		if rng.Chance(75) {
+			g := u.txs[rng.Intn(len(u.txs))]
+			res := 0
+			if err := f.SubmitTx(g.tx.Transaction); err != nil {
+				res = 1
+			}
+			rej := "[]"
+			if chainRejects(g) {
+				rej = fmt.Sprintf("[%d]", g.id)
+			}
+			emit(fmt.Sprintf("OAppend %d %s %d", g.id, rej, u.h.limit), "real:append", res, res == 1)
+			continue
+		}
+		// a block with 1-3 mutually compatible, still valid transactions
+		var blk []interfaces.Transaction
+		var ids []int
+		used := map[string]bool{}
+		for tries := 0; tries < 12 && len(blk) < 1+rng.Intn(3); tries++ {
+			var g *gtx
+			if len(held) > 0 && rng.Chance(50) {
+				g = u.get(held[rng.Intn(len(held))])
+			} else {
+				g = u.txs[rng.Intn(len(u.txs))]
+			}
+			ok := !chainRejects(g)
+			for _, in := range g.ins {
+				if used[in] {
+					ok = false
+				}
+			}
+			if !ok {
+				continue
+			}
+			for _, in := range g.ins {
+				used[in] = true
+			}
+			blk = append(blk, g.tx.Transaction)
+			ids = append(ids, g.id)
+		}
+		b, err := f.BuildBlock(tip, blk, fixture.BlockOpt{Salt: uint64(i)})
+		if err != nil {
+			panic(fmt.Sprintf("fixture: build block: %v", err))
+		}
+		inMain, _, err := f.ProcessBlock(b)
+		if err != nil || !inMain {
+			panic(fmt.Sprintf("fixture: block with valid transactions not connected: %v", err))
+		}
+		tip = b
+		for in := range used {
+			spent[in] = true
+		}
+		var rej []int
+		for _, h := range held {
+			if chainRejects(u.get(h)) {
+				rej = append(rej, h)
+			}
+		}
+		emit(fmt.Sprintf("OConnect %s 0 [] %s %d", nlist(ids), nlist(rej), u.h.limit), "real:block-connected", 0, len(rej) > 0)
+	}
+	var univ []string
+	for _, g := range u.txs {
+		univ = append(univ, u.coqTx(g, tbl))
+	}
+	sh.Add(fmt.Sprintf("Case %d %d\n   [%s]\n   [%s]", id, maxsz, strings.Join(univ, ";\n    "), strings.Join(steps, ";\n    ")))
+	st.LogCase(run.Out, id, map[string]interface{}{"kind": "real", "max": maxsz, "txs": len(u.txs), "steps": jsteps})
+	st.Sample(map[string]interface{}{"kind": "real", "history": id, "txs": len(u.txs), "ops": len(steps), "first_ops": o.log[:min(5, len(o.log))]})
+}
